@@ -279,7 +279,7 @@ def run_case(case, out):
                     if not failed:
                         raise core.Infra('no poll happened within 5 s')
                     t0 = time.time()
-                    while len(ch.polls) <= failed[0] and time.time() - t0 < 3:
+                    while len(ch.polls) <= failed[0] and time.time() - t0 < 15:
                         time.sleep(0.002)
                     survived = len(ch.polls) > failed[0]
                     ch.on_poll = None
